@@ -1,0 +1,52 @@
+//go:build verif
+
+package drivers
+
+// Contracts for the deductive verifier in /verif (govc). Comment-only.
+//
+// Abstraction of a Reader onto the receiver model of /verif/spec/receiver.gvs:
+//   m = state (0 clean, 1 within channel message, 2 within sys common, 3 in sysex, 4 within unknown)
+//   rs = statusByte, cur = typ (in state 2), h = issetBf, d = bf, sl = sysexlen,
+//   size = SysExBufferSize, hs = HandleSysex.
+// Messages are handed to OnMsg in the driver-layer representation: channel and system common messages
+// padded with zero bytes to three bytes, real-time as one byte, sysex complete, and an unpaired F7 as the
+// marker [F7 00 00] (which midi.ListenTo does not deliver).
+
+//@ macro readerInv(r) = r.state >= 0 && r.state <= 4 && r.SysExBufferSize >= 1 && r.OnMsg != nil && (r.state == 3 ==> (r.sysexBf != nil && 1 <= r.sysexlen && r.sysexlen <= len(r.sysexBf) && len(r.sysexBf) == int(r.SysExBufferSize) && r.sysexBf[0] == 0xF0 && r.sysexTS <= r.ts_ms)) && (r.statusByte == 0 || (r.statusByte >= 0x80 && r.statusByte <= 0xEF)) && (r.statusByte != 0 ==> r.typ == (r.statusByte >> 4)) && (r.state == 1 ==> r.statusByte != 0) && (r.state >= 2 ==> r.statusByte == 0) && (r.state == 2 ==> ((r.typ == 0xF1 || r.typ == 0xF2 || r.typ == 0xF3) && r.statusByte == 0)) && ((r.state == 0 && r.statusByte != 0) ==> !r.issetBf)
+
+//@ macro rxKind(r, b) = rxEmit(r.state, r.statusByte, r.typ, r.issetBf, b, r.sysexlen, int(r.SysExBufferSize), r.HandleSysex)
+
+//@ func (*Reader).eachByte$1
+//@ requires r != nil && r.OnMsg != nil && 0 <= l && l <= len(bb)
+//@ modifies cb_log
+//@ ensures cb_n == old(cb_n) + 1 && cb_len(old(cb_n), 0) == l && cb_i32(old(cb_n), 1) == r.sysexTS && cb_fn(old(cb_n)) == r.OnMsg
+//@ ensures forall j int :: 0 <= j && j < l ==> cb_byte(old(cb_n), 0, j) == bb[j]
+//@ loop 0 invariant fresh(_bt) && len(_bt) == l && 0 <= i && i <= l
+//@ loop 0 invariant forall j int :: 0 <= j && j < i ==> _bt[j] == bb[j]
+//@ loop 0 decreases l - i
+
+//@ func (*Reader).eachByte
+//@ requires readerInv(r)
+//@ modifies *r, cb_log
+//@ ensures [P:C06] readerInv(r)
+//@ ensures [P:C04] r.state == rxMode(old(r.state), old(r.statusByte), old(r.typ), old(r.issetBf), b, old(r.sysexlen), int(r.SysExBufferSize), r.HandleSysex)
+//@ ensures [P:C04] r.statusByte == rxRS(old(r.statusByte), b)
+//@ ensures [P:C04] r.state == 2 ==> r.typ == rxCur(old(r.typ), b)
+//@ ensures [P:C04] (r.state == 1 || r.state == 2) ==> (r.issetBf == rxHave(old(r.state), old(r.statusByte), old(r.typ), old(r.issetBf), b) && (r.issetBf ==> r.bf == rxD1(old(r.state), old(r.statusByte), old(r.typ), old(r.issetBf), old(r.bf), b)))
+//@ ensures [P:C04] r.state == 3 ==> r.sysexlen == rxSL(old(r.state), b, old(r.sysexlen), int(r.SysExBufferSize), r.HandleSysex)
+//@ ensures [H] r.ts_ms == old(r.ts_ms) && r.SysExBufferSize == old(r.SysExBufferSize) && r.HandleSysex == old(r.HandleSysex) && r.OnMsg == old(r.OnMsg) && r.OnErr == old(r.OnErr)
+//@ ensures [P:C04] old(rxKind(r, b)) == 0 ==> cb_n == old(cb_n)
+//@ ensures [P:C04] old(rxKind(r, b)) != 0 ==> (cb_n == old(cb_n) + 1 && cb_fn(old(cb_n)) == r.OnMsg)
+//@ ensures [P:C04] old(rxKind(r, b)) == 1 ==> (cb_len(old(cb_n), 0) == 1 && cb_byte(old(cb_n), 0, 0) == b && cb_i32(old(cb_n), 1) == r.ts_ms)
+//@ ensures [P:C04] old(rxKind(r, b)) == 2 ==> (cb_len(old(cb_n), 0) == 3 && cb_byte(old(cb_n), 0, 0) == old(r.statusByte) && cb_byte(old(cb_n), 0, 1) == b && cb_byte(old(cb_n), 0, 2) == 0 && cb_i32(old(cb_n), 1) == r.ts_ms)
+//@ ensures [P:C04] old(rxKind(r, b)) == 3 ==> (cb_len(old(cb_n), 0) == 3 && cb_byte(old(cb_n), 0, 0) == old(r.statusByte) && cb_byte(old(cb_n), 0, 1) == old(r.bf) && cb_byte(old(cb_n), 0, 2) == b && cb_i32(old(cb_n), 1) == r.ts_ms)
+//@ ensures [P:C04] old(rxKind(r, b)) == 4 ==> (cb_len(old(cb_n), 0) == 3 && cb_byte(old(cb_n), 0, 0) == old(r.typ) && cb_byte(old(cb_n), 0, 1) == b && cb_byte(old(cb_n), 0, 2) == 0 && cb_i32(old(cb_n), 1) == r.ts_ms)
+//@ ensures [P:C04] old(rxKind(r, b)) == 5 ==> (cb_len(old(cb_n), 0) == 3 && cb_byte(old(cb_n), 0, 0) == 0xF2 && cb_byte(old(cb_n), 0, 1) == old(r.bf) && cb_byte(old(cb_n), 0, 2) == b && cb_i32(old(cb_n), 1) == r.ts_ms)
+//@ ensures [P:C04] old(rxKind(r, b)) == 6 ==> (cb_len(old(cb_n), 0) == 3 && cb_byte(old(cb_n), 0, 0) == 0xF6 && cb_byte(old(cb_n), 0, 1) == 0 && cb_byte(old(cb_n), 0, 2) == 0 && cb_i32(old(cb_n), 1) == r.ts_ms)
+//@ ensures [P:C04] old(rxKind(r, b)) == 7 ==> (cb_len(old(cb_n), 0) == old(r.sysexlen) + 1 && cb_byte(old(cb_n), 0, 0) == 0xF0 && cb_byte(old(cb_n), 0, old(r.sysexlen)) == 0xF7 && cb_i32(old(cb_n), 1) == old(r.sysexTS))
+//@ ensures [P:C04] old(rxKind(r, b)) == 7 ==> forall j int :: 0 <= j && j < old(r.sysexlen) ==> cb_byte(old(cb_n), 0, j) == old(r.sysexBf[j])
+//@ ensures [P:C06] old(rxKind(r, b)) == 8 ==> (cb_len(old(cb_n), 0) == 3 && cb_byte(old(cb_n), 0, 0) == 0xF7 && cb_byte(old(cb_n), 0, 1) == 0 && cb_byte(old(cb_n), 0, 2) == 0)
+//@ ensures [H] r.state == 3 && b < 0x80 ==> (r.sysexBf == old(r.sysexBf) || old(r.state) != 3)
+//@ ensures [P:C04] r.state == 3 && old(r.state) == 3 && b != 0xF0 ==> (r.sysexTS == old(r.sysexTS) && forall j int :: 0 <= j && j < old(r.sysexlen) ==> r.sysexBf[j] == old(r.sysexBf[j]))
+//@ ensures [P:C04] r.state == 3 && old(r.state) == 3 && b < 0x80 && r.HandleSysex ==> r.sysexBf[old(r.sysexlen)] == b
+//@ ensures [P:C04] b == 0xF0 ==> r.sysexTS == r.ts_ms
